@@ -49,7 +49,8 @@ def snap(o, depth=0):
     if o is None or isinstance(o, (int, float, str, bool, F)):
         return o
     if isinstance(o, G.Point):
-        return ("Point", o.x, o.y, o.z)
+        pv = o.pv()
+        return ("Point", o.x, o.y, o.z, (pv[0], pv[1], pv[2]))
     if isinstance(o, G.Vector):
         return ("Vector", o[0], o[1], o[2])
     if isinstance(o, G.Line):
@@ -292,6 +293,7 @@ class Executor(object):
     def mutate(self, name, a):
         G = lib()
         owners_before = [(e, (full_snap(e.obj), measures(e.obj))) for e in self.objs if e.owns]
+        args_before = [(e, full_snap(e.obj)) for e in self.pts + self.vecs]
         target = None
         # every object has been "queried before": whatever an implementation memoises is memoised now
         for e in self.all_entries():
@@ -323,7 +325,7 @@ class Executor(object):
             c[a[1] % 3] = val
             target.desc = ("V", tuple(c))
         elif name == "mut_objmove":
-            cands = [e for e in self.objs if e.kind in ("S", "H", "G") and e.owns]
+            cands = [e for e in self.objs if e.kind in ("S", "H", "G", "L") and e.owns]
             if not cands:
                 return
             target = cands[a[0] % len(cands)]
@@ -354,6 +356,12 @@ class Executor(object):
                     self.facts,
                 )
             self.check_entry(e, "after a constructor argument was mutated")
+        # moving a composite must leave the shared Points and Vectors it was built from where they are
+        for e, before in args_before:
+            if e is target:
+                continue
+            if full_snap(e.obj) != before:
+                raise Fail("mutating a %s changed a %s" % (target.label, e.label), {"before": repr(before)[:200], "after": repr(full_snap(e.obj))[:200]}, self.facts)
         if dependants:
             self.mutations_after_build += 1
         # the mutated argument itself answers like a fresh object with the new value (no stale memo)
@@ -363,7 +371,7 @@ class Executor(object):
                 raise Fail("a %s edited in place is not equal to a fresh one with the same coordinates" % target.label, {"model": target.desc}, self.facts)
             if self.guard("hash", lambda: hash(target.obj)) != self.guard("hash", lambda: hash(fresh)):
                 raise Fail("a %s edited in place hashes unlike a fresh one with the same coordinates" % target.label, {"model": target.desc}, self.facts)
-        if target.kind in ("G", "S", "H"):
+        if target.kind in ("G", "S", "H", "L"):
             self.check_entry(target, "after it was moved")
 
     # ---- queries
